@@ -26,7 +26,7 @@ RULE = (
     "and environment faults between calls (cachey's clock frozen / running backwards / jumping, flox.cache.cache "
     "cleared or shrunk, get_parts cache cleared). Co-computed handles are a base call plus variants differing in exactly "
     "one ingredient (value array, labels, reduction, ddof, min_count, fill_value, dtype, method, engine, sort, reindex, "
-    "chunking). Invariants after every op: digests of every argument object (arrays, labels, expected_groups, the "
+    "chunking, expected_groups). Invariants after every op: digests of every argument object (arrays, labels, expected_groups, the "
     "Aggregation's state) and a structural snapshot of the AGGREGATIONS registry are unchanged. History oracle: each "
     "call's result equals the result of the same call executed FIRST in a pristine process (forked from a zygote that "
     "imported flox but never called it). Co-compute oracle: every member of a merged compute equals the same handle "
@@ -41,7 +41,7 @@ PROBES = ["labels_2d_and_transposed_view", "xarray_rechunk_helper", "reindex_obj
           "parts_cache_cleared", "memo_hit_after_same_call", "custom_aggregation_reused", "rechunk_helper", "scan",
           "ingredient_array", "ingredient_labels", "ingredient_func", "ingredient_ddof", "ingredient_min_count",
           "ingredient_fill_value", "ingredient_dtype", "ingredient_method", "ingredient_engine", "ingredient_sort",
-          "ingredient_reindex", "ingredient_chunks"]
+          "ingredient_reindex", "ingredient_chunks", "ingredient_expected_groups"]
 
 _ZYGOTE = None
 PRISTINE_REPLAY = True  # shrinking and replay attempts run in a process forked from the zygote
@@ -115,7 +115,8 @@ def _reset_known_state():
 # generation
 # ---------------------------------------------------------------------------
 
-INGREDIENTS = ["array", "labels", "func", "ddof", "min_count", "fill_value", "dtype", "method", "engine", "sort", "reindex", "chunks"]
+INGREDIENTS = ["array", "labels", "func", "ddof", "min_count", "fill_value", "dtype", "method", "engine", "sort", "reindex", "chunks",
+               "expected_groups"]
 
 
 def gen(tape: Tape, tier: str) -> dict:
@@ -206,6 +207,14 @@ def gen(tape: Tape, tier: str) -> dict:
             ckw["fill_value"] = 0 if not (isinstance(f, str) and "arg" in f) else -1
             kw["fill_value"] = -5 if not (isinstance(f, str) and "arg" in f) else -2
             call["kwargs"] = enc_value(ckw)
+        elif ing == "expected_groups":
+            # the same labels requested, plus trailing ones that do not occur
+            ckw = dec_value(call["kwargs"])
+            ckw["expected_groups"] = np.arange(ngroups)
+            ckw.setdefault("fill_value", -1 if isinstance(f, str) and "arg" in f else 0)
+            call["kwargs"] = enc_value(ckw)
+            kw = dict(ckw)
+            kw["expected_groups"] = np.arange(ngroups + 1 + tape.draw("gen.exp.extra", 2))
         elif ing == "dtype":
             if isinstance(f, str) and ("arg" in f or f == "count"):
                 kw["func"] = "nansum"
@@ -276,6 +285,7 @@ def gen(tape: Tape, tier: str) -> dict:
             ops.append({"op": "call", "api": tape.choice("gen.rechunk", ["rechunk_for_blockwise", "rechunk_for_blockwise", "rechunk_for_cohorts",
                                                                          "xr_rechunk_for_blockwise", "xr_rechunk_for_cohorts"]),
                         "arr": tape.draw("gen.arr", 3), "lab": 2 + tape.draw("gen.sortedlab", 2),
+                        "xr_kind": tape.choice("gen.xrkind", ["ds", "da"]),
                         "chunks": [base_chunks if tape.chance("gen.samechunks", 0.7) else gen_chunks(tape, n, max_blocks=5)], "kwargs": {}})
         elif r < 7:
             ops.append({"op": "call", "api": "blockwise_1d", "arr": tape.draw("gen.arr", 3), "lab": 2 + tape.draw("gen.sortedlab", 2),
@@ -418,10 +428,14 @@ def do_call(arrays, labels, op, user_aggs):
 
         # one persistent xarray object per run: the helpers must rechunk a copy, never the caller's object
         xpool = user_aggs.setdefault("__xr__", {})
-        key = (op["arr"], tuple(chunks[-1]))
+        kind = op.get("xr_kind", "ds")
+        key = (kind, op["arr"], tuple(chunks[-1]))
         if key not in xpool:
-            d2 = da.from_array(arrays[(op["arr"] + 1) % len(arrays)].astype("f8"), chunks=chunks)
-            xpool[key] = xr.Dataset({"a": (("x",), darr), "b": (("x",), d2), "c": (("y",), np.arange(3.0))})
+            if kind == "ds":
+                d2 = da.from_array(arrays[(op["arr"] + 1) % 3].astype("f8"), chunks=chunks)
+                xpool[key] = xr.Dataset({"a": (("x",), darr), "b": (("x",), d2), "c": (("y",), np.arange(3.0))})
+            else:
+                xpool[key] = xr.DataArray(darr, dims=["x"], name="a", attrs={"units": "m"})
             user_aggs.setdefault("__xr_digest__", {})[key] = _xr_digest(xpool[key])  # state before any helper saw it
         ds = xpool[key]
         labda = xr.DataArray(lab, dims=["x"], name="lab")
@@ -429,7 +443,10 @@ def do_call(arrays, labels, op, user_aggs):
             r = fx.rechunk_for_blockwise(ds, "x", labda)
         else:
             r = fx.rechunk_for_cohorts(ds, "x", labda, force_new_chunk_at=[lab[0]], chunksize=max(1, len(lab) // 3))
-        out = (r["a"].data, r["b"].data, np.array(r["a"].data.chunks[-1]), np.asarray(r["c"].values))
+        if kind == "ds":
+            out = (r["a"].data, r["b"].data, np.array(r["a"].data.chunks[-1]), np.asarray(r["c"].values))
+        else:
+            out = (r.data, np.array(r.data.chunks[-1]))
     else:
         raise ValueError(api)
     return tuple(out)
@@ -450,6 +467,10 @@ def _xobj_digest(obj, labda):
 
 
 def _xr_digest(ds):
+    import xarray as xr
+
+    if isinstance(ds, xr.DataArray):
+        return digest([repr(ds.chunks), ds.data.name, list(ds.dims), dict(ds.attrs), str(ds.name)], size=12)
     return digest([repr({k: tuple(v) for k, v in ds.chunks.items()}), ds["a"].data.name, ds["b"].data.name, list(ds.variables)], size=12)
 
 
